@@ -46,17 +46,38 @@ class FnInfo(object):
         self.sk = skel_mod.Skel(fn)
         lab = self.sk.label
         self.nodes = {}          # label -> cfg Node
+        # a lambda expression has a CFG node of its own (in front of the statement that contains it) that is not part
+        # of the skeleton: it gets a label above the skeleton's, in source order
+        self.lam_label = {}
+        lams = sorted((n for n in graph.index.values() if isinstance(n.ast_node, ast.Lambda)),
+                      key=lambda n: (n.ast_node.lineno, n.ast_node.col_offset))
+        base = max(self.sk.node_of) + 1
+        for i, n in enumerate(lams):
+            self.lam_label[id(n.ast_node)] = base + i
+        self.lambdas = sorted(self.lam_label.values())
         for n in graph.index.values():
-            if isinstance(n.ast_node, ast.Lambda):
-                raise Unsupported('lambda node')
+            if id(n.ast_node) in self.lam_label:
+                self.nodes[self.lam_label[id(n.ast_node)]] = n
+                continue
             if id(n.ast_node) not in lab:
                 raise Unsupported('CFG node without label %r' % (n,))
             self.nodes[lab[id(n.ast_node)]] = n
-        self.edges, _, self.errors = skel_mod.impl_graph(graph, self.sk)
+        self.edges, _, self.errors = skel_mod.impl_graph(graph, self.sk)      # lambda nodes contracted
+        full = set()
+        for n in graph.index.values():
+            for m in n.next:
+                full.add((self.label_of(n), self.label_of(m)))
+        for n in graph.exit:
+            full.add((self.label_of(n), 0))
+        self.edges_full = sorted(full)
         self.entry = lab[id(graph.entry.ast_node)]
 
     def label_of(self, node):
-        return self.sk.label[id(node.ast_node)]
+        k = id(node.ast_node)
+        return self.lam_label[k] if k in self.lam_label else self.sk.label[k]
+
+    def kind(self, l):
+        return self.sk.kind.get(l, 'lambda')
 
 
 class Analysis(object):
@@ -98,6 +119,8 @@ class Analysis(object):
         self.graphs = graphs
         self.fns = {}       # FunctionDef node -> FnInfo
         for node, g in graphs.items():
+            if isinstance(node, ast.Lambda):
+                continue        # the lambda's own (two-node) graph is not exported
             if not isinstance(node, ast.FunctionDef):
                 raise Unsupported('graph of a %s' % type(node).__name__)
             self.fns[node] = FnInfo(node, g, rd_an.get(id(g)), lv_an.get(id(g)))
@@ -277,6 +300,7 @@ def implicit_exception(src, fname, decisions, args):
     glb = world.globals()
     exec(compile(src, '<flow>', 'exec'), glb)
     f = glb[fname]
+    args = tuple(args)[:f.__code__.co_argcount]
     codes = set()
     todo = [f.__code__]
     while todo:
@@ -315,6 +339,7 @@ class Dyn(object):
         exec(compile(src, '<flow>', 'exec'), glb)
         f = glb[fi.fn.name]
         self.f = f
+        args = tuple(args)[:f.__code__.co_argcount]
         kind, val, events = pyrt.run_var_events(f, args, world)
         self.kind, self.val = kind, val
         if kind == 'raise' and val not in ('E0', 'E1', 'E2', 'E3'):
@@ -399,14 +424,12 @@ class Dyn(object):
                 else:
                     return
         cur.end = len(ev)
-        # the property (and cfg.py) exclude implicit exceptions: a run whose statement sequence is not a path
-        # of the graph (an ordinary statement raised and a handler caught it) is outside the quantifier
+        # (runs in which an ordinary statement raised are excluded above by implicit_exception; the executed
+        # statement sequence is NOT required to be a path of the implementation's graph -- a missing edge is
+        # exactly how a wrong graph makes the analyses unsound, and the oracle must see those runs)
         es = set(fi.edges)
         labs = [x.label for x in inst if x.label]
-        self.val = 'not-a-cfg-path'
-        for a, b in zip(labs, labs[1:]):
-            if (a, b) not in es:
-                return
+        self.on_graph = all((a, b) in es for a, b in zip(labs, labs[1:]))
         self.val = val
         self.ev = ev
         self.inst = inst
@@ -501,6 +524,11 @@ def liveness_failures(an, fi, dyn):
             known = 'for-target-killed-on-exit-edge'
         elif ev[q][2] is not None and var in nl.get(ev[q][2], ()):
             known = 'liveness-nonlocal-closure-read'
+        elif ev[q][2] == '<lambda>' and any(x.line == ev[q][3] and x.start < p for x in lab):
+            # the read that makes the variable live is performed by the body of a lambda expression (the variable is
+            # one of its free variables) that was evaluated by an earlier statement instance and is called after the
+            # boundary: liveness.Analyzer.lamba_check leaves lambdas out of the closure rule
+            known = 'liveness-lambda-closure-not-live'
         out.append({'what': what, 'var': var, 'label': label, 'known': known,
                     'read_at_line': ev[q][3], 'read_through': ev[q][2]})
 
@@ -729,6 +757,7 @@ class EscapeGen(_progs.Gen):
     def __init__(self, rnd, opts):
         _progs.Gen.__init__(self, rnd, opts)
         self.calls = []      # [call expression, name that must be bound, set of names that must be bound at the call]
+        self.lambdas = False  # also create local functions as `g = lambda: ...`
 
     def plain(self, defined):
         return set(v for v in defined if v in self.vars or v in _progs.PARAMS)
@@ -822,10 +851,15 @@ class EscapeGen(_progs.Gen):
             # the whole scenario in one go: def, escape, [re-def], [sibling / hop], control statement, indirect call
             self.budget -= 4
             name = 'g%d' % self.key()
-            need = self.emit_def(ind, name, plain)
+            if self.lambdas and r.random() < 0.6:
+                rd = [v for v in sorted(plain) if v in self.vars and r.random() < 0.6][:2] or sorted(v for v in plain if v in self.vars)[:1]
+                self.emit(ind, '%s = lambda: T(%d%s)' % (name, self.key(), ''.join(', ' + v for v in rd)))
+                need = set(rd)
+            else:
+                need = self.emit_def(ind, name, plain)
             self.bind_def(name, need)
             defined = defined | {name}
-            target = self.escape(ind, [name + '()', name, need])
+            target = [name + '()', name, need] if (self.lambdas and r.random() < 0.4) else self.escape(ind, [name + '()', name, need])
             defined = defined | {target[1]}
             if r.random() < 0.6:
                 need2 = self.emit_def(ind, name, plain, captures=r.random() < 0.3)
@@ -844,6 +878,13 @@ class EscapeGen(_progs.Gen):
             return defined, True
         if x < 0.30 and depth < 3 and plain:
             self.budget -= 1
+            if self.lambdas and r.random() < 0.5:
+                # a lambda stored in a variable (later: aliased, put in a list, called through a sibling, ...)
+                name = 'g%d' % self.key()
+                rd = [v for v in sorted(plain) if r.random() < 0.5][:2] or sorted(plain)[:1]
+                self.emit(ind, '%s = lambda: T(%d%s)' % (name, self.key(), ''.join(', ' + v for v in rd)))
+                self.bind_def(name, set(rd))
+                return defined | {name}, True
             name = 'g%d' % self.key()
             need = self.emit_def(ind, name, plain)
             self.bind_def(name, need)
@@ -877,8 +918,9 @@ class EscapeGen(_progs.Gen):
         return _progs.Gen.stmt(self, ind, defined, depth, in_loop, ihf)
 
 
-def gen_escape_function(rnd, opts):
+def gen_escape_function(rnd, opts, lambdas=False):
     g = EscapeGen(rnd, opts)
+    g.lambdas = lambdas
     g.emit(0, 'def f(%s):' % ', '.join(_progs.PARAMS))
     defined = set(_progs.PARAMS)
     for v in rnd.sample(g.vars, 2):
@@ -891,6 +933,96 @@ def gen_escape_function(rnd, opts):
     elif rnd.random() < 0.8:
         g.emit(1, 'return %s' % g.texpr(g.plain(defined)))
     return '\n'.join(g.lines) + '\n'
+
+
+def gen_nested_try_function(rnd):
+    """an explicit raise inside an inner try that the inner handlers do not match and an outer handler catches; a
+    variable bound just before the raise, re-bound on the normal path, read in / after the outer handler"""
+    k = [0]
+
+    def key():
+        k[0] += 1
+        return k[0]
+    L = ['def f(a, b, c):']
+    v, u = rnd.sample(_progs.VARS, 2)
+    L.append('    %s = T(%d)' % (u, key()))
+    if rnd.random() < 0.5:
+        L.append('    %s = T(%d)' % (v, key()))
+    ind = 1
+    loop = rnd.random() < 0.3
+    if loop:
+        L.append('    while D(%d):' % key())
+        ind = 2
+    p = '    ' * ind
+    exc = rnd.sample(['E0', 'E1', 'E2'], 3)
+    L.append(p + 'try:')
+    if rnd.random() < 0.4:
+        L.append(p + '    %s = T(%d, %s)' % (u, key(), u))
+    L.append(p + '    try:')
+    L.append(p + '        %s = T(%d, a)' % (v, key()))
+    if rnd.random() < 0.7:
+        L.append(p + '        if D(%d):' % key())
+        L.append(p + '            raise %s()' % exc[0])
+        if rnd.random() < 0.4:
+            L.append(p + '        %s = T(%d, %s)' % (u, key(), v))
+    else:
+        L.append(p + '        raise %s()' % exc[0])
+    L.append(p + '    except %s:' % exc[1])
+    L.append(p + '        %s = T(%d)' % (rnd.choice([v, u]), key()))
+    if rnd.random() < 0.3:
+        L.append(p + '    except %s as e:' % exc[2])
+        L.append(p + '        T(%d)' % key())
+    L.append(p + '    %s = T(%d)' % (v, key()))
+    if rnd.random() < 0.5:
+        L.append(p + '    T(%d, %s)' % (key(), v))
+    L.append(p + 'except %s:' % (exc[0] if rnd.random() < 0.7 else '(%s, %s)' % (exc[0], exc[2])))
+    L.append(p + '    %s = T(%d, %s)' % (u, key(), v))
+    if rnd.random() < 0.5:
+        L.append(p + '    if D(%d):' % key())
+        L.append(p + '        %s = T(%d, %s)' % (v, key(), v))
+    if loop and rnd.random() < 0.5:
+        L.append(p + '    break')
+    L.append('    return T(%d, %s, %s)' % (key(), v, u))
+    return '\n'.join(L) + '\n'
+
+
+def gen_paramless_function(rnd):
+    """a function without parameters in which nothing is bound before a loop, and the first binding is the last
+    CFG node of the loop body (the in-state of that node is empty when it is first visited)"""
+    k = [0]
+
+    def key():
+        k[0] += 1
+        return k[0]
+    L = ['def f():']
+    for _ in range(rnd.randint(0, 2)):
+        L.append('    T(%d)' % key())
+    v, u = rnd.sample(_progs.VARS, 2)
+    L.append('    while D(%d):' % key())
+    for _ in range(rnd.randint(0, 2)):
+        L.append('        T(%d)' % key())
+    kind = rnd.random()
+    if kind < 0.4:
+        L.append('        %s = T(%d)' % (v, key()))
+    elif kind < 0.7:
+        L.append('        if D(%d):' % key())
+        L.append('            T(%d)' % key())
+        L.append('        %s = T(%d)' % (v, key()))
+    else:
+        L.append('        while D(%d):' % key())
+        L.append('            T(%d)' % key())
+        L.append('            %s, %s = T(%d), T(%d)' % (v, u, key(), key()))
+    tail = rnd.random()
+    if tail < 0.35:
+        L.append('    if D(%d):' % key())
+        L.append('        %s = T(%d, %s)' % (u, key(), v))
+    elif tail < 0.6:
+        L.append('    while D(%d):' % key())
+        L.append('        %s = T(%d, %s)' % (v, key(), v))
+    elif tail < 0.8:
+        L.append('    T(%d, %s)' % (key(), v))
+    L.append('    return T(%d, %s)' % (key(), v))
+    return '\n'.join(L) + '\n'
 
 
 def gen_closure_function(rnd, opts):
@@ -992,7 +1124,15 @@ def defs_reaching(fi):
         live.add(m)
         todo.extend(succ.get(m, ()))
     for l, node in fi.nodes.items():
-        if isinstance(node.ast_node, ast.FunctionDef) and l in live:     # a def in dead code never executes
+        created = []
+        if l in fi.lambdas:
+            continue
+        if isinstance(node.ast_node, ast.FunctionDef):
+            created.append(node.ast_node)
+        elif fi.kind(l) != 'args':
+            roots = [node.ast_node.context_expr] if fi.kind(l) == 'item' else [node.ast_node]
+            created.extend(x for r in roots for x in _own_nodes(r) if isinstance(x, ast.Lambda))
+        if created and l in live:     # a def / lambda in dead code never executes
             seen = set()
             todo = list(succ.get(l, ()))
             while todo:
@@ -1002,8 +1142,34 @@ def defs_reaching(fi):
                 seen.add(m)
                 todo.extend(succ.get(m, ()))
             for m in seen:
-                out.setdefault(m, []).append(node.ast_node)
+                out.setdefault(m, []).extend(created)
     return out
+
+
+def lambda_free_reads(lam):
+    """S: names a lambda expression reads from the enclosing function when it is called"""
+    own = set(a.arg for a in lam.args.posonlyargs + lam.args.args + lam.args.kwonlyargs)
+    for x in ast.walk(lam.body):
+        if isinstance(x, (ast.Lambda, ast.NamedExpr, ast.ListComp, ast.SetComp, ast.DictComp, ast.GeneratorExp)):
+            raise Unsupported('nested scope inside a lambda')
+    return sorted(set(x.id for x in ast.walk(lam.body) if isinstance(x, ast.Name) and isinstance(x.ctx, ast.Load)) - own)
+
+
+def body_successor(fi, l):
+    """for header l: label of its CFG successor inside the loop (a lambda node when the first statement of the
+    body contains a lambda expression), else 0"""
+    if fi.kind(l) != 'iter':
+        return 0
+    node = fi.nodes[l]
+    for s in ast.walk(fi.fn):
+        if isinstance(s, ast.For) and s.iter is node.ast_node:
+            inside = set(id(x) for st in s.body for x in ast.walk(st))
+            hits = [fi.label_of(m) for m in node.next if id(m.ast_node) in inside]
+            return hits[0] if len(hits) == 1 else 0
+    return 0
+
+
+EMPTY_EFFECT = {'reads': [], 'writes': [], 'dels': [], 'ftarget': [], 'body': 0}
 
 
 def lv_case(an, fi, idx):
@@ -1015,27 +1181,30 @@ def lv_case(an, fi, idx):
     for l, node in sorted(fi.nodes.items()):
         sc = an.node_scope(node)
         fns = an.reaching_fns(node)
-        cread, cread_nl = set(), set()
+        cread, cread_nl, cread_lam = set(), set(), set()
         # S: a local function can only run during a node that performs a call; it may be any function whose def
         # statement lies on a graph path to this node (the object may have been aliased / stored / passed on, so
         # a later def of the same name does not end its life) -- computed from the graph, not from DEFINED_FNS_IN
-        calls = fi.sk.kind[l] != 'args' and any(isinstance(x, ast.Call) for x in _own_nodes(node.ast_node))
-        for is_l, d in [(False, dn) for dn in sreach.get(l, ())]:
-            if not is_l and calls:
+        calls = fi.kind(l) not in ('args', 'lambda') and any(isinstance(x, ast.Call) for x in _own_nodes(node.ast_node))
+        for d in sreach.get(l, ()):
+            if calls and isinstance(d, ast.Lambda):
+                cread_lam |= set(lambda_free_reads(d))
+            elif calls:
                 a, b = fn_free_reads(d)
                 cread |= set(a)
                 cread_nl |= set(b)
-        e = eff[l]
-        rows.append('(mknode %d %s %s [%s] %s %s [] %s %s %s %s %s %s %s %d)' % (
+        e = eff.get(l, EMPTY_EFFECT)
+        rows.append('(mknode %d %s %s [%s] %s %s %s [] %s %s %s %s %s %s %s %d %d)' % (
             l, 'true' if sc is not None else 'false', coq_scope(sc, nt),
             '; '.join('(%s, %s)' % ('true' if is_l else 'false', coq_scope(d, nt)) for is_l, d, _ in fns),
-            nt.lst(sorted(cread)), nt.lst(sorted(cread_nl)), nt.lst(an.loop_targets(node)),
+            nt.lst(sorted(cread)), nt.lst(sorted(cread_nl)), nt.lst(sorted(cread_lam)), nt.lst(an.loop_targets(node)),
             nt.lst(sorted(str(q) for q in fi.lv.in_[node])), nt.lst(sorted(str(q) for q in fi.lv.out[node])),
-            nt.lst(e['reads']), nt.lst(e['writes']), nt.lst(e['dels']), nt.lst(e['ftarget']), e['body']))
+            nt.lst(e['reads']), nt.lst(e['writes']), nt.lst(e['dels']), nt.lst(e['ftarget']), e['body'],
+            body_successor(fi, l)))
         dl = [fi.sk.label[id(d)] for _, _, d in fns if id(d) in fi.sk.label]
         fnrows.append('(%d, %s, %s)' % (l, 'true' if isinstance(node.ast_node, ast.FunctionDef) else 'false', _nats(sorted(dl))))
-    return '(mklvcase %d (%s) %s [%s] [%s] [%s])' % (idx, fi.sk.term, skel_mod.coq_edges(fi.edges), ';\n  '.join(rows),
-                                                    '; '.join(stmt_annos(an, fi, nt)), '; '.join(fnrows))
+    return '(mklvcase %d (%s) %s [%s] [%s] [%s] %s)' % (idx, fi.sk.term, skel_mod.coq_edges(fi.edges_full), ';\n  '.join(rows),
+                                                       '; '.join(stmt_annos(an, fi, nt)), '; '.join(fnrows), _nats(fi.lambdas))
 
 
 def rd_case(an, fi, idx):
@@ -1053,14 +1222,17 @@ def rd_case(an, fi, idx):
         return '[' + '; '.join('(%d, %d)' % (nt(s), l) for s, l in an.rd_state(fi, st)) + ']'
     for l, node in sorted(fi.nodes.items()):
         sc = an.node_scope(node)
-        e = eff[l]
+        e = eff.get(l, EMPTY_EFFECT)
         genk = sorted(str(s) for s in fi.rd.gen_map[node].value) if node in fi.rd.gen_map else []
-        rows.append('(mknode %d %s %s [] [] [] %s %s %s %s %s %s %s %s %d)' % (
+        rows.append('(mknode %d %s %s [] [] [] [] %s %s %s %s %s %s %s %s %d %d)' % (
             l, 'true' if sc is not None else 'false', coq_scope(sc, nt), nt.lst(genk), nt.lst(an.loop_targets(node)),
             items(fi.rd.in_[node]), items(fi.rd.out[node]),
-            nt.lst(e['reads']), nt.lst(e['writes']), nt.lst(e['dels']), nt.lst(e['ftarget']), e['body']))
+            nt.lst(e['reads']), nt.lst(e['writes']), nt.lst(e['dels']), nt.lst(e['ftarget']), e['body'],
+            body_successor(fi, l)))
+        if l in fi.lambdas:
+            continue
         roots = [node.ast_node]
-        if fi.sk.kind[l] == 'iter':
+        if fi.kind(l) == 'iter':
             roots.append(parents[id(node.ast_node)].target)
         for r in roots:
             for nd in _own_nodes(r):
@@ -1074,8 +1246,8 @@ def rd_case(an, fi, idx):
         if anno.hasanno(s, anno.Static.DEFINED_VARS_IN):
             dins.append('(mkdanno %s %s)' % (_nats(inside_labels(fi.sk, s)),
                                              nt.lst(sorted(str(q) for q in anno.getanno(s, anno.Static.DEFINED_VARS_IN)))))
-    return '(mkrdcase %d (%s) %s [%s] [%s] [%s])' % (idx, fi.sk.term, skel_mod.coq_edges(fi.edges), ';\n  '.join(rows),
-                                                    '; '.join(names), '; '.join(dins))
+    return '(mkrdcase %d (%s) %s [%s] [%s] [%s] %s)' % (idx, fi.sk.term, skel_mod.coq_edges(fi.edges_full), ';\n  '.join(rows),
+                                                       '; '.join(names), '; '.join(dins), _nats(fi.lambdas))
 
 
 def coq_eval_cases(pid, name, cases, ctype, fname, module, shard=60, timeout=900):
@@ -1127,8 +1299,13 @@ def program_stream(rnd, it):
         return 'delete', _progs.gen_function(rnd, _progs.Opts(reads='safe', nested_def=True, delete=True, max_stmts=12))
     if k < 13:
         return 'closure', gen_closure_function(rnd, _progs.Opts(reads='safe', max_stmts=14, raise_=(k == 12)))
+    if k < 16:
+        return 'escape', gen_escape_function(rnd, _progs.Opts(reads='safe', max_stmts=16, max_depth=2, raise_=False, try_=(k == 15), with_=False))
     if k < 18:
-        return 'escape', gen_escape_function(rnd, _progs.Opts(reads='safe', max_stmts=16, max_depth=2, raise_=False, try_=(k == 17), with_=False))
+        return 'lambda', gen_escape_function(rnd, _progs.Opts(reads='safe', max_stmts=16, max_depth=2, raise_=False, try_=False, with_=False),
+                                             lambdas=True)
+    if k == 18:
+        return ('nested-try', gen_nested_try_function(rnd)) if (it // 20) % 2 else ('paramless', gen_paramless_function(rnd))
     return 'any', _progs.gen_function(rnd, _progs.Opts(reads='any', max_stmts=10))
 
 
@@ -1173,6 +1350,7 @@ def check_property(run, kind, generate):
     meta = []           # index -> (src, fn name, stream)
     failures = []       # (what, known, replay dict)
     runs = 0
+    off_graph = 0
     skipped = {}
     hist = {}
     seen_src = set()
@@ -1198,7 +1376,7 @@ def check_property(run, kind, generate):
         for kw in ('while', 'for', 'try', 'finally', 'except', 'break', 'continue', 'return', 'raise', 'with', 'else', 'def', 'nonlocal', 'del'):
             if re.search(r'\b%s\b' % kw, src):
                 hist[kw] = hist.get(kw, 0) + 1
-        if re.search(r'\b(while|for|try|def)\b', src):
+        if re.search(r'\b(while|for|try|def|lambda)\b', src):
             run.nontriv(src)
         try:
             for fi in an.fns.values():
@@ -1217,6 +1395,8 @@ def check_property(run, kind, generate):
                 skipped[str(d.val)] = skipped.get(str(d.val), 0) + 1
                 continue
             runs += 1
+            if not d.on_graph:
+                off_graph += 1
             fs = liveness_failures(an, fi, d) if kind == 'lv' else reachdef_failures(an, fi, d)
             for f in fs:
                 failures.append((f['what'], f['known'], {'program': src, 'decisions': list(dv), 'failure': f,
@@ -1228,6 +1408,7 @@ def check_property(run, kind, generate):
     run.extra['function_graphs_checked_in_coq'] = len(cases)
     run.extra['traces_validated_against_impl'] = runs
     run.extra['runs_outside_the_property'] = skipped
+    run.extra['runs_off_the_reported_graph'] = off_graph
     run.extra['construct_histogram'] = hist
 
     module = 'MV.Flow.LvCheck' if kind == 'lv' else 'MV.Flow.RdCheck'
@@ -1250,6 +1431,11 @@ def check_property(run, kind, generate):
             if kind == 'lv' and code == 6:
                 run.violation('variables read and declared nonlocal by a reaching local function are not live', {},
                               classify='liveness-nonlocal-closure-read')
+                continue
+            if kind == 'lv' and code == 8:
+                run.violation('free variables of lambda expressions that are called later are not live',
+                              {'program': meta[idxs[0]][0], 'function': meta[idxs[0]][1]},
+                              found_input=False, classify='liveness-lambda-closure-not-live')
                 continue
             if code == 7:
                 # only the edge-sensitive (unguarded) inclusions fail: the for header kills / redefines its targets
